@@ -14,7 +14,8 @@ VARIABLE l
 Nodes == 1 .. Len(W.nodes)
 T(n) == WS.snapshot[n].mtime
 
-Holds(o, t, a, b) == CASE o = "eq" -> a <= t /\ t <= b [] o = "ne" -> ~(a <= t /\ t <= b)
+(* range: `col >= lit and col <= lit`, the same interval as `=` *)
+Holds(o, t, a, b) == CASE o \in {"eq", "range"} -> a <= t /\ t <= b [] o = "ne" -> ~(a <= t /\ t <= b)
                        [] o = "lt" -> t < a [] o = "gt" -> t > b [] o = "lte" -> t <= b [] o = "gte" -> t >= a
 
 Verdict(r) ==
